@@ -27,7 +27,110 @@ pub struct UdpScn {
     pub idle_ms: u64,
     /// one-way traffic (the target stays silent) for longer than the idle timeout, then the target answers
     pub oneway: Option<OneWay>,
+    /// SOCKS5 only: a datagram that is not a well-formed RFC 1928 UDP request is sent to the relay address of client 0
+    pub junk: Option<Junk>,
     pub seed: u64,
+}
+
+/// What is sent to the relay socket instead of a well-formed request (RFC 1928 section 7: RSV(2) = 0, FRAG,
+/// ATYP, DST.ADDR, DST.PORT, DATA).  A relay drops what it cannot or will not relay; it goes on relaying.
+#[derive(Clone, Copy, Debug, PartialEq, Eq)]
+pub enum JunkKind {
+    /// a datagram of 0 bytes
+    Empty,
+    /// 1 byte / 3 bytes: shorter than RSV RSV FRAG ATYP
+    Short1,
+    Short3,
+    /// RSV = 0x0001, otherwise a well-formed request to target 0
+    Rsv,
+    /// ATYP = 9
+    Atyp9,
+    /// the header ends inside the IPv4 / IPv6 address, inside the port
+    CutV4,
+    CutV6,
+    CutPort,
+    /// ATYP = 3 with a length octet of 200 and three more bytes
+    DomLen,
+    /// FRAG = 1, otherwise a well-formed request to target 0 (a relay without reassembly MUST drop it)
+    Frag,
+}
+
+pub const JUNK_KINDS: [JunkKind; 10] = [
+    JunkKind::Empty, JunkKind::Short1, JunkKind::Short3, JunkKind::Rsv, JunkKind::Atyp9, JunkKind::CutV4, JunkKind::CutV6, JunkKind::CutPort, JunkKind::DomLen, JunkKind::Frag,
+];
+
+impl JunkKind {
+    pub fn text(self) -> &'static str {
+        match self {
+            JunkKind::Empty => "empty",
+            JunkKind::Short1 => "short1",
+            JunkKind::Short3 => "short3",
+            JunkKind::Rsv => "rsv",
+            JunkKind::Atyp9 => "atyp9",
+            JunkKind::CutV4 => "cut-v4",
+            JunkKind::CutV6 => "cut-v6",
+            JunkKind::CutPort => "cut-port",
+            JunkKind::DomLen => "domlen",
+            JunkKind::Frag => "frag",
+        }
+    }
+    fn describe(self) -> &'static str {
+        match self {
+            JunkKind::Empty => "an empty datagram",
+            JunkKind::Short1 => "a 1-byte datagram",
+            JunkKind::Short3 => "a 3-byte datagram (shorter than RSV RSV FRAG ATYP)",
+            JunkKind::Rsv => "a request with RSV = 0001",
+            JunkKind::Atyp9 => "a datagram with ATYP = 9",
+            JunkKind::CutV4 => "a datagram that ends inside the IPv4 address of its header",
+            JunkKind::CutV6 => "a datagram that ends inside the IPv6 address of its header",
+            JunkKind::CutPort => "a datagram that ends inside DST.PORT",
+            JunkKind::DomLen => "a datagram whose domain-name length octet (200) exceeds the datagram",
+            JunkKind::Frag => "a fragment (FRAG = 1)",
+        }
+    }
+    /// the relay could read a destination out of it (so it may arrive at target 0)
+    fn addressed(self) -> bool {
+        matches!(self, JunkKind::Rsv | JunkKind::Frag)
+    }
+    fn bytes(self, target: SocketAddr, nonce: u32) -> Vec<u8> {
+        let body = |h: &mut Vec<u8>| {
+            h.extend_from_slice(b"\xEE\xEEnot-a-request\xEE\xEE");
+            h.extend_from_slice(&nonce.to_be_bytes());
+        };
+        match self {
+            JunkKind::Empty => vec![],
+            JunkKind::Short1 => vec![0],
+            JunkKind::Short3 => vec![0, 0, 0],
+            JunkKind::Rsv | JunkKind::Frag => {
+                let mut h = socks5_udp_header(target, false);
+                if self == JunkKind::Rsv {
+                    h[1] = 1;
+                } else {
+                    h[2] = 1;
+                }
+                body(&mut h);
+                h
+            }
+            JunkKind::Atyp9 => {
+                let mut h = vec![0, 0, 0, 9, 127, 0, 0, 1, 0x30, 0x39];
+                body(&mut h);
+                h
+            }
+            JunkKind::CutV4 => vec![0, 0, 0, 1, 127, 0],
+            JunkKind::CutV6 => vec![0, 0, 0, 4, 0, 0, 0, 0, 0, 0, 0],
+            JunkKind::CutPort => vec![0, 0, 0, 1, 127, 0, 0, 1, 0x30],
+            JunkKind::DomLen => vec![0, 0, 0, 3, 200, b'l', b'o', b'c'],
+        }
+    }
+}
+
+#[derive(Clone, Debug, PartialEq, Eq)]
+pub struct Junk {
+    pub kind: JunkKind,
+    /// sent by another local socket that never sends anything valid (otherwise by client 0's own socket)
+    pub other: bool,
+    /// sent before the exchanges of `sizes` (otherwise after them, followed by one more exchange)
+    pub before: bool,
 }
 
 /// The local clients keep SENDING while nothing comes back: one datagram per (streaming client, target)
@@ -81,8 +184,12 @@ impl UdpScn {
                 o.at_ms.map(|a| format!(" at={a}")).unwrap_or_default()
             ),
         };
+        let junk = match &self.junk {
+            None => String::new(),
+            Some(j) => format!(" junk={} by={} when={}", j.kind.text(), if j.other { "other" } else { "own" }, if j.before { "before" } else { "after" }),
+        };
         format!(
-            "udp via={} clients={} targets={} sizes={} replies={} domain={} idle={}{oneway} seed={}",
+            "udp via={} clients={} targets={} sizes={} replies={} domain={} idle={}{oneway}{junk} seed={}",
             if self.socks { "socks5" } else { "udp-remote" },
             self.clients,
             self.targets.iter().map(ToString::to_string).collect::<Vec<_>>().join(","),
@@ -98,7 +205,7 @@ impl UdpScn {
         if t.next()? != "udp" {
             return None;
         }
-        let mut s = UdpScn { socks: false, clients: 1, targets: vec![0], sizes: vec![8], replies: 1, domain: false, idle_ms: 0, oneway: None, seed: 0 };
+        let mut s = UdpScn { socks: false, clients: 1, targets: vec![0], sizes: vec![8], replies: 1, domain: false, idle_ms: 0, oneway: None, junk: None, seed: 0 };
         for kv in t {
             let (k, v) = kv.split_once('=')?;
             match k {
@@ -115,12 +222,18 @@ impl UdpScn {
                 "streamers" => s.oneway.get_or_insert_with(|| OneWay::new(0)).streamers = v.parse().ok().filter(|n| (1..=8).contains(n))?,
                 "shared" => s.oneway.get_or_insert_with(|| OneWay::new(0)).shared = v == "1",
                 "at" => s.oneway.get_or_insert_with(|| OneWay::new(0)).at_ms = Some(v.parse().ok().filter(|n| *n < 60_000)?),
+                "junk" => s.junk.get_or_insert(Junk { kind: JunkKind::Empty, other: false, before: false }).kind = *JUNK_KINDS.iter().find(|k| k.text() == v)?,
+                "by" => s.junk.get_or_insert(Junk { kind: JunkKind::Empty, other: false, before: false }).other = match v { "other" => true, "own" => false, _ => return None },
+                "when" => s.junk.get_or_insert(Junk { kind: JunkKind::Empty, other: false, before: false }).before = match v { "before" => true, "after" => false, _ => return None },
                 "seed" => s.seed = v.parse().ok()?,
                 _ => return None,
             }
         }
         if s.oneway.as_ref().is_some_and(|o| o.ms == 0) {
             s.oneway = None;
+        }
+        if !s.socks {
+            s.junk = None; // every datagram is a valid datagram for a fixed UDP remote
         }
         if let Some(o) = &mut s.oneway {
             o.streamers = o.streamers.min(s.clients);
@@ -198,7 +311,7 @@ struct Client {
     addr: SocketAddr,
     /// SOCKS5: the relay address from the UDP ASSOCIATE reply, and the control connection
     relay: Option<SocketAddr>,
-    _ctl: Option<TcpStream>,
+    ctl: Option<TcpStream>,
 }
 
 async fn associate(w: &World) -> Result<(TcpStream, SocketAddr), String> {
@@ -259,6 +372,8 @@ pub struct UdpOutcome {
     pub hdr_other: usize,
     pub infra: Option<String>,
     pub map_entries: usize,
+    /// junk datagrams from which the relay read a destination and which it relayed (RSV != 0: observation)
+    pub junk_relayed: usize,
 }
 
 fn mk_payload(nonce: u32, client: usize, target: usize, seq: u32, len: usize, rng: &mut pvhf::Rng) -> Vec<u8> {
@@ -593,6 +708,83 @@ async fn one_way(w: &World, sc: &UdpScn, ow: &OneWay, clients: &[Client], seq: &
     }
 }
 
+/// Send the junk datagram of the scenario to the relay address of client 0 and give the relay time to deal
+/// with it.  Judged here: a fragment must not arrive at the target as a datagram (RFC 1928 section 7: "an
+/// implementation that does not support fragmentation MUST drop any datagram whose FRAG field is other than
+/// X'00'"); nothing may arrive at a client or at the other socket unless the junk was relayed and the target
+/// answered it.  Returns the description of what was sent (None = infrastructure problem).
+async fn send_junk(w: &World, sc: &UdpScn, j: &Junk, clients: &[Client], stranger: Option<&UdpSocket>, nonce: u32, out: &mut UdpOutcome) -> Option<String> {
+    let relay = clients[0].relay?;
+    let tgt = &w.udp_targets[0];
+    let bytes = j.kind.bytes(tgt.addr, nonce);
+    let sock = match (j.other, stranger) {
+        (true, Some(s)) => s,
+        _ => &clients[0].sock,
+    };
+    let from = sock.local_addr().ok()?;
+    let what = format!(
+        "{} ({} bytes: {}) was sent to the relay address {relay} of client 0's association by {} ({from})",
+        j.kind.describe(),
+        bytes.len(),
+        if bytes.is_empty() { "-".to_string() } else { pvhf::hex(&bytes[..bytes.len().min(16)]) },
+        if j.other { "another local socket that never sent a valid request" } else { "the association's own client socket" },
+    );
+    let mark = tgt.log.lock().unwrap().got.len();
+    if let Err(e) = sock.send_to(&bytes, relay).await {
+        out.infra = Some(format!("send_to (junk): {e}"));
+        return None;
+    }
+    // what the relay could read a destination from may have been relayed: look at the target
+    let mut relayed = false;
+    let waited = Instant::now();
+    while waited.elapsed() < Duration::from_millis(if j.kind.addressed() { 300 } else { 100 }) {
+        if j.kind.addressed() && tgt.log.lock().unwrap().got[mark..].iter().any(|(p, _)| bytes.ends_with(p) && !p.is_empty()) {
+            relayed = true;
+            break;
+        }
+        tokio::time::sleep(Duration::from_millis(5)).await;
+    }
+    let mut buf = vec![0u8; 65536];
+    if relayed {
+        out.junk_relayed += 1;
+        if j.kind == JunkKind::Frag {
+            out.bad.push((format!("after-junk:{}:fragment-relayed", j.kind.text()), format!("{what}: it arrived at target 0 as a datagram of its own")));
+        }
+        // the target answers whatever it receives: take its answers off the sender's socket
+        let deadline = Instant::now() + Duration::from_millis(500);
+        let mut n = 0;
+        while n < sc.replies && Instant::now() < deadline {
+            if sock.try_recv_from(&mut buf).is_ok() {
+                n += 1;
+            } else {
+                tokio::time::sleep(Duration::from_millis(3)).await;
+            }
+        }
+    }
+    for (ci, s) in clients.iter().map(|c| &c.sock).chain(stranger).enumerate() {
+        if let Ok((n, from)) = s.try_recv_from(&mut buf) {
+            let who = if ci < clients.len() { format!("client {ci}") } else { "the other socket".to_string() };
+            out.bad.push((format!("after-junk:{}:datagram-from-nowhere", j.kind.text()), format!("{what}: then {who} received a {n}-byte datagram from {from} that no target sent to it")));
+        }
+    }
+    Some(what)
+}
+
+/// The failures of the exchange that followed the junk datagram: keys prefixed, the junk named, and whether
+/// anybody was told (the association's TCP control connection).
+fn after_junk(j: &Junk, what: &str, clients: &[Client], out: &mut UdpOutcome) {
+    let ctl = match clients[0].ctl.as_ref().map(|c| c.try_read(&mut [0u8; 1])) {
+        Some(Ok(0)) => "the association's TCP control connection has been closed",
+        Some(Err(e)) if e.kind() == std::io::ErrorKind::WouldBlock => "the association's TCP control connection is still open, nothing was reported on it",
+        Some(_) => "the association's TCP control connection carries data or an error",
+        None => "",
+    };
+    for b in &mut out.bad {
+        b.0 = format!("after-junk:{}:{}", j.kind.text(), b.0);
+        b.1 = format!("after {what} (RFC 1928 section 7: a relay drops what it cannot or will not relay): {}; {ctl}", b.1);
+    }
+}
+
 pub async fn run_udp(w: Arc<World>, sc: UdpScn) -> UdpOutcome {
     let mut out = UdpOutcome::default();
     let mut rng = pvhf::Rng::new(sc.seed ^ 0xD6);
@@ -626,13 +818,48 @@ pub async fn run_udp(w: Arc<World>, sc: UdpScn) -> UdpOutcome {
         } else {
             (None, None)
         };
-        clients.push(Client { sock, addr, relay, _ctl: ctl });
+        clients.push(Client { sock, addr, relay, ctl });
     }
     let mut seq = 0u32;
+    // the other local socket of the junk scenarios: it never sends anything valid
+    let stranger = match &sc.junk {
+        Some(j) if j.other => match UdpSocket::bind("127.0.0.1:0").await {
+            Ok(s) => Some(s),
+            Err(e) => {
+                out.infra = Some(format!("bind: {e}"));
+                return out;
+            }
+        },
+        _ => None,
+    };
+    let mut junk_sent: Option<String> = None;
+    if let Some(j) = sc.junk.as_ref().filter(|j| j.before) {
+        junk_sent = send_junk(&w, &sc, j, &clients, stranger.as_ref(), nonce, &mut out).await;
+        if !out.bad.is_empty() || out.infra.is_some() {
+            return out;
+        }
+    }
     for len in &sc.sizes {
         seq += 1;
         round(&w, &sc, &clients, *len, seq, nonce, &mut rng, &mut out).await;
         if !out.bad.is_empty() || out.infra.is_some() {
+            if let (Some(j), Some(what)) = (&sc.junk, &junk_sent) {
+                after_junk(j, what, &clients, &mut out);
+            }
+            return out;
+        }
+    }
+    if let Some(j) = sc.junk.as_ref().filter(|j| !j.before) {
+        junk_sent = send_junk(&w, &sc, j, &clients, stranger.as_ref(), nonce, &mut out).await;
+        if !out.bad.is_empty() || out.infra.is_some() {
+            return out;
+        }
+        seq += 1;
+        round(&w, &sc, &clients, 34, seq, nonce, &mut rng, &mut out).await;
+        if !out.bad.is_empty() || out.infra.is_some() {
+            if let Some(what) = &junk_sent {
+                after_junk(j, what, &clients, &mut out);
+            }
             return out;
         }
     }
